@@ -397,7 +397,7 @@ class SummaryReporterV1(AbstractSummaryReporter):
         stream.write(format_summary("feature", self.feature_summary))
         if self.show_rules and has_rules:
             # -- HINT: Show only rules, if any exists.
-            self.stream.write(format_summary("rule", self.rule_summary))
+            stream.write(format_summary("rule", self.rule_summary))
         stream.write(format_summary("scenario", self.scenario_summary))
         stream.write(format_summary("step", self.step_summary))
 
